@@ -41,10 +41,14 @@ def make_experiments(d, seed):
         p1, p2 = os.path.join(d, "%s_rep1.bam" % k), os.path.join(d, "%s_rep2.bam" % k)
         w.write_bam(p1, reads=[r for i, r in enumerate(rs) if i % 2 == 0] + extra)
         w.write_bam(p2, reads=[r for i, r in enumerate(rs) if i % 2 == 1])
-        paths[k] = {"one": [p], "two": [p1, p2]}
+        # unbalanced replicas: nine reads in ten in the first file (novel isoforms supported by ONE file only)
+        s1, s2 = os.path.join(d, "%s_skew1.bam" % k), os.path.join(d, "%s_skew2.bam" % k)
+        w.write_bam(s1, reads=[r for i, r in enumerate(rs) if i % 10 != 0] + extra)
+        w.write_bam(s2, reads=[r for i, r in enumerate(rs) if i % 10 == 0])
+        paths[k] = {"one": [p], "two": [p1, p2], "skew": [s1, s2]}
     shutil.copy(paths["A"]["one"][0], os.path.join(d, "A2.bam"))
     shutil.copy(paths["A"]["one"][0] + ".bai", os.path.join(d, "A2.bam.bai"))
-    paths["A2"] = {"one": [os.path.join(d, "A2.bam")], "two": paths["A"]["two"]}
+    paths["A2"] = {"one": [os.path.join(d, "A2.bam")], "two": paths["A"]["two"], "skew": paths["A"]["skew"]}
     return paths
 
 
@@ -126,21 +130,31 @@ def run(chk, scratch):
             seqs = [(["A", "B"], "one", 1, "yaml"), (["B", "A"], "one", 1, "yaml"), (["A", "A2"], "one", 1, "yaml"),
                     (["A", "B", "C"], "one", 1, "list"), (["C", "B", "A"], "one", 4, "yaml"), (["A", "B"], "one", 4, "list"),
                     (["A", "B"], "two", 1, "yaml"), (["B", "A", "C"], "two", 4, "yaml"), (["B", "C"], "two", 1, "list"),
-                    (["A", "B"], "one", 1, "yaml-nomodels"), (["C", "A", "B"], "one", 1, "yaml")]
+                    (["A", "B"], "one", 1, "yaml-nomodels"), (["C", "A", "B"], "one", 1, "yaml"),
+                    (["A", "B"], ("one", "skew"), 1, "yaml"), (["B", "A"], ("skew", "one"), 1, "yaml"), (["C", "A", "B"], ("one", "skew", "two"), 4, "list"),
+                    (["A", "B"], "skew", 4, "yaml")]
         else:
             seqs = [(["A", "B", "C"], "one", 1, "yaml"), (["B", "A"], "one", 4, "list"), (["A", "B"], "two", 1, "yaml"),
-                    (["A", "A2"], "one", 1, "yaml")]
+                    (["A", "A2"], "one", 1, "yaml"), (["A", "B"], ("one", "skew"), 1, "yaml"), (["B", "A"], ("skew", "one"), 2, "list")]
         # stand-alone runs (per experiment x files x threads x mode)
+        # a sequence whose experiments differ in the number of files runs (stand-alone and joint) with an explicit --read_group file_name,
+        # which a mixed sequence would otherwise switch on implicitly for all experiments
+        def nf_of(nf, pos):
+            return nf if isinstance(nf, str) else nf[pos]
+
+        def rg_of(nf):
+            return [] if isinstance(nf, str) else ["--read_group", "file_name"]
         solo_keys = set()
         for names, nf, t, mode in seqs:
-            for n in names:
-                solo_keys.add((n, nf, t, mode))
+            for pos, n in enumerate(names):
+                solo_keys.add((n, nf_of(nf, pos), t, mode, not isinstance(nf, str)))
 
         def run_solo(key):
-            n, nf, t, mode = key
-            out = os.path.join(d, "solo_%s_%s_%d_%s" % (n, nf, t, mode))
-            inp = os.path.join(d, "solo_%s_%s_%s.in" % (n, nf, mode))
+            n, nf, t, mode, rg = key
+            out = os.path.join(d, "solo_%s_%s_%d_%s_%s" % (n, nf, t, mode, rg))
+            inp = os.path.join(d, "solo_%s_%s_%s_%s.in" % (n, nf, mode, rg))
             extra = ["--no_model_construction"] if mode.endswith("nomodels") else []
+            extra += ["--read_group", "file_name"] if rg else []
             if mode.startswith("yaml"):
                 write_yaml(inp, [(n, paths[n][nf])])
                 a = ["-o", out, "--yaml", inp]
@@ -163,7 +177,8 @@ def run(chk, scratch):
             out = os.path.join(d, "joint%d" % i)
             inp = os.path.join(d, "joint%d.in" % i)
             extra = ["--no_model_construction"] if mode.endswith("nomodels") else []
-            exps = [(n, paths[n][nf]) for n in names]
+            extra += rg_of(nf)
+            exps = [(n, paths[n][nf_of(nf, pos)]) for pos, n in enumerate(names)]
             if mode.startswith("yaml"):
                 write_yaml(inp, exps)
                 a = ["-o", out, "--yaml", inp]
@@ -185,7 +200,7 @@ def run(chk, scratch):
             snaps = [e for e in runner.load_events(ev) if e["k"] == "sample_start"]
             chk.sample({"sequence": names, "threads": t, "carried_state_at_sample_start": [(s["prefix"], s["state"]) for s in snaps]}, limit=3)
             for pos, n in enumerate(names):
-                key = (n, nf, t, mode)
+                key = (n, nf_of(nf, pos), t, mode, not isinstance(nf, str))
                 if key not in solos:
                     continue
                 a_dir, b_dir = os.path.join(solos[key], n), os.path.join(out, n)
@@ -206,11 +221,14 @@ def run(chk, scratch):
                                   "%s: experiment %s (position %d) file %s: %s%s" % (desc, n, pos, rel, why, detail), wit)
                 if pos > 0:
                     chk.nontrivial.add((tuple(names), pos, t, nf, mode))
+                    if not isinstance(nf, str) and len(paths[n][nf_of(nf, pos)]) > 1 and any(len(paths[m][nf_of(nf, q)]) == 1 for q, m in enumerate(names[:pos])):
+                        chk.count("multi_file_experiments_after_a_single_file_one")
             check_combined(chk, out, names, wit)
             shutil.rmtree(out, ignore_errors=True)
         if chk.violations and not getattr(chk, "witness_files", None):
             chk.witness_files = [os.path.join(d, f) for f in os.listdir(d) if f.endswith((".bam", ".bai", ".gtf", ".fa", ".in"))]
     chk.assumptions = ["stand-alone and joint runs use the same experiment name, labels and option string",
-                       "sequences keep the number of files per experiment uniform (a mixed sequence switches on file-name grouping for all experiments)"]
+                       "sequences either keep the number of files per experiment uniform or run with an explicit --read_group file_name (a mixed sequence switches on file-name grouping for all experiments)"]
     chk.inconclusive_if(chk.extra.get("experiment_comparisons", 0) == 0, "no experiment compared")
+    chk.inconclusive_if(chk.extra.get("multi_file_experiments_after_a_single_file_one", 0) == 0, "no multi-file experiment was processed after a single-file one")
     chk.min_nontrivial = 3
